@@ -1,15 +1,34 @@
 #!/usr/bin/env python3-vt
-import json, jsonschema, glob, sys
+import json, jsonschema, glob, sys, os
 ok = True
+man = json.load(open('/verif/MANIFEST.json'))
 try:
-    jsonschema.validate(json.load(open('/verif/MANIFEST.json')), json.load(open('/root/.vp/MANIFEST.schema.json')))
+    jsonschema.validate(man, json.load(open('/root/.vp/MANIFEST.schema.json')))
     print('manifest ok')
 except Exception as e:
     ok = False; print('MANIFEST INVALID', str(e)[:300])
 sch = json.load(open('/root/.vp/EVIDENCE.schema.json'))
+claimed = {c['property_id']: c for c in man['checks']}
+props = [json.loads(l)['id'] for l in open('/verif/properties.jsonl')]
+for p in props:
+    if p not in claimed and p not in [n['property_id'] for n in man['not_applicable']]:
+        ok = False; print('property neither claimed nor not_applicable:', p)
 for f in sorted(glob.glob('/verif/evidence/*.json')):
     try:
-        jsonschema.validate(json.load(open(f)), sch); print('ok', f)
+        e = json.load(open(f))
+        jsonschema.validate(e, sch)
+        c = claimed.get(e['property_id'])
+        if c is None:
+            ok = False; print('evidence without claim', f)
+        elif c['level_claimed']['category'] != e['level']:
+            ok = False; print('LEVEL MISMATCH', f, e['level'], c['level_claimed']['category'])
+        elif os.path.abspath(c['evidence_file']) != os.path.abspath(f):
+            ok = False; print('evidence path mismatch', f)
+        else:
+            print('ok', f)
     except Exception as e:
         ok = False; print('INVALID', f, str(e)[:300])
+for p, c in claimed.items():
+    if not os.path.exists(c['evidence_file']):
+        ok = False; print('missing evidence', p)
 sys.exit(0 if ok else 1)
